@@ -170,55 +170,55 @@ func (v *VerifC07) apply(changes []ResourceChange) []VerifChange {
 // AddIngress adds or updates an Ingress.
 func (v *VerifC07) AddIngress(ing *networking.Ingress) ([]VerifChange, int) {
 	ch, pr := v.lbc.configuration.AddOrUpdateIngress(ing)
-	return v.apply(ch), len(pr)
+	return v.apply(ch), v.note(pr)
 }
 
 // DeleteIngress deletes an Ingress.
 func (v *VerifC07) DeleteIngress(key string) ([]VerifChange, int) {
 	ch, pr := v.lbc.configuration.DeleteIngress(key)
-	return v.apply(ch), len(pr)
+	return v.apply(ch), v.note(pr)
 }
 
 // AddVirtualServer adds or updates a VirtualServer.
 func (v *VerifC07) AddVirtualServer(vs *conf_v1.VirtualServer) ([]VerifChange, int) {
 	ch, pr := v.lbc.configuration.AddOrUpdateVirtualServer(vs)
-	return v.apply(ch), len(pr)
+	return v.apply(ch), v.note(pr)
 }
 
 // DeleteVirtualServer deletes a VirtualServer.
 func (v *VerifC07) DeleteVirtualServer(key string) ([]VerifChange, int) {
 	ch, pr := v.lbc.configuration.DeleteVirtualServer(key)
-	return v.apply(ch), len(pr)
+	return v.apply(ch), v.note(pr)
 }
 
 // AddVirtualServerRoute adds or updates a VirtualServerRoute.
 func (v *VerifC07) AddVirtualServerRoute(vsr *conf_v1.VirtualServerRoute) ([]VerifChange, int) {
 	ch, pr := v.lbc.configuration.AddOrUpdateVirtualServerRoute(vsr)
-	return v.apply(ch), len(pr)
+	return v.apply(ch), v.note(pr)
 }
 
 // DeleteVirtualServerRoute deletes a VirtualServerRoute.
 func (v *VerifC07) DeleteVirtualServerRoute(key string) ([]VerifChange, int) {
 	ch, pr := v.lbc.configuration.DeleteVirtualServerRoute(key)
-	return v.apply(ch), len(pr)
+	return v.apply(ch), v.note(pr)
 }
 
 // AddTransportServer adds or updates a TransportServer.
 func (v *VerifC07) AddTransportServer(ts *conf_v1.TransportServer) ([]VerifChange, int) {
 	ch, pr := v.lbc.configuration.AddOrUpdateTransportServer(ts)
-	return v.apply(ch), len(pr)
+	return v.apply(ch), v.note(pr)
 }
 
 // DeleteTransportServer deletes a TransportServer.
 func (v *VerifC07) DeleteTransportServer(key string) ([]VerifChange, int) {
 	ch, pr := v.lbc.configuration.DeleteTransportServer(key)
-	return v.apply(ch), len(pr)
+	return v.apply(ch), v.note(pr)
 }
 
 // SetGlobalConfiguration installs a GlobalConfiguration.
 func (v *VerifC07) SetGlobalConfiguration(gc *conf_v1.GlobalConfiguration) ([]VerifChange, int, error) {
 	ch, pr, err := v.lbc.configuration.AddOrUpdateGlobalConfiguration(gc)
-	return v.apply(ch), len(pr), err
+	return v.apply(ch), v.note(pr), err
 }
 
 // UpdateAll regenerates everything the way updateAllConfigs does: main config plus every
@@ -263,4 +263,14 @@ func VerifValidateIngress(ing *networking.Ingress, isPlus, snippets bool) []stri
 		out = append(out, e.Field)
 	}
 	return out
+}
+
+// ProblemLog collects reason + message of every ConfigurationProblem (debugging aid, VERIF_C07_DEBUG).
+var ProblemLog []string
+
+func (v *VerifC07) note(pr []ConfigurationProblem) int {
+	for _, p := range pr {
+		ProblemLog = append(ProblemLog, p.Reason+": "+p.Message)
+	}
+	return len(pr)
 }
